@@ -866,7 +866,8 @@ def judge(ctx, plan, traces, summaries):
             gens = sorted({g for x in bad for g in s["gens"][x]})
             # the label kind is part of the input shape only where hashing matters
             sh = shape if c == "hash" else "+".join(shape.split("+")[1:])
-            if bad == ["0"] and len(seeds) > 1:
+            # only seed 0 breaks isolation / independence of the globals: falsy-seed handling
+            if bad == ["0"] and len(seeds) > 1 and c != "hash":
                 sh += ":seed=0"
             if c == "hash" and s["listorder"]:
                 sh += ":list-order"
